@@ -291,11 +291,11 @@ func (w *world) callback(sc scenario) cbObs {
 	if err != nil {
 		var ne net.Error
 		if errors.As(err, &ne) && ne.Timeout() {
-			fmt.Fprintln(os.Stderr, "harness: callback round trip timed out:", err)
-			os.Exit(3)
+			// no answer within 300 s on loopback: an observation (status 0), judged like any other
+			return cbObs{Status: 0, Detail: "timeout: " + err.Error()}
 		}
 		msg := err.Error()
-		if strings.Contains(msg, "EOF") || strings.Contains(msg, "connection reset") || strings.Contains(msg, "server closed") {
+		if strings.Contains(msg, "EOF") || strings.Contains(msg, "connection reset") || strings.Contains(msg, "server closed") || strings.Contains(msg, "broken pipe") {
 			return cbObs{Dropped: true, Detail: msg}
 		}
 		fmt.Fprintln(os.Stderr, "harness: callback round trip failed for a reason of the harness's own:", err)
